@@ -1,5 +1,10 @@
 package harness
 
-import "github.com/google/uuid"
+import (
+	"github.com/google/uuid"
+	"zombiezen.com/go/sqlite"
+)
 
 type uuidT = uuid.UUID
+
+type sqliteStmt = sqlite.Stmt
